@@ -208,6 +208,9 @@ deriving Repr
 /-- `done` after the attempt: on the grid and no sampled cell of the window is near -/
 def Att.ok (mask : Array Bool) (a : Att) : Bool := a.inGrid && a.near.all fun k => !(mask.getD k false)
 
+/-- `qx >= 0 and qx < nx and qy >= 0 and qy < ny` -/
+def inGridTest (qx qy : Dy) (nx ny : Nat) : Bool := qx.nonneg && qx.ltNat nx && qy.nonneg && qy.ltNat ny
+
 /-- the float part of one attempt for the active point `(px, py)`, the draw behind `v` and the trig row of `t` -/
 def attempt (env : Env) (px py r1 : Nat) (c s : Dy) : Att :=
   let rx := round f32 (env.rx.getD (px * env.ny + py) default)
@@ -215,7 +218,7 @@ def attempt (env : Env) (px py r1 : Nat) (c s : Dy) : Att :=
   let v := vOf r1
   let qx := candidate px v rx c
   let qy := candidate py v ry s
-  let inGrid := qx.nonneg && qx.ltNat env.nx && qy.nonneg && qy.ltNat env.ny
+  let inGrid := inGridTest qx qy env.nx env.ny
   if inGrid then
     let sx := winStart qx rx
     let ex := winEnd qx rx env.nx
@@ -285,14 +288,23 @@ def step (env : Env) (st : St) : Except Halt St :=
     | .error h => .error h
     | .ok (outcome, pos, att) => bookkeep env st i outcome pos att
 
+/-- how a run ended: `halt = none` when the loop ended with `num_actives = 0`; `st` is the state at that point -/
+structure Outcome where
+  halt : Option Halt
+  st : St
+deriving Repr
+
 /-- `while num_actives > 0` with at most `fuel` iterations -/
-def run (env : Env) : (fuel : Nat) → St → Except Halt St
-  | 0, st => if st.acts.size = 0 then .ok st else .error .outOfFuel
+def run (env : Env) : (fuel : Nat) → St → Outcome
+  | 0, st => ⟨if st.acts.size = 0 then none else some .outOfFuel, st⟩
   | fuel + 1, st =>
-    if st.acts.size = 0 then .ok st else
+    if st.acts.size = 0 then ⟨none, st⟩ else
     match step env st with
-    | .error h => .error h
+    | .error h => ⟨some h, st⟩
     | .ok st' => run env fuel st'
+
+def blank : St :=
+  { mask := #[], acts := #[], pos := 0, att := 0, iters := 0, accepts := 0, removals := 0, stale := 0, maxna := 0 }
 
 /-- state after `pxs[0] = randint(nx); pys[0] = randint(ny); num_actives = 1` (the initial point is *not*
 marked in the mask) -/
@@ -306,10 +318,28 @@ def init (env : Env) : Except Halt St :=
           accepts := 0, removals := 0, stale := 0, maxna := 1 }
   | _, _ => .error .outOfDraws
 
-/-- the whole call: final state (mask, counters) or the reason it stopped -/
-def kernel (env : Env) (fuel : Nat) : Except Halt St :=
+/-- the whole call: how it ended and the final state (mask, counters) -/
+def kernel (env : Env) (fuel : Nat) : Outcome :=
   match init env with
-  | .error h => .error h
+  | .error h => ⟨some h, blank⟩
   | .ok st => run env fuel st
+
+/-! ## the statements of `poisson` this file models, as located text (compared with the current `.pyx` by
+`Bridge.C04.pyx_facts_eq`; `_f32(…)` marks an assignment to a `cdef float` variable) -/
+
+def pyxFacts : List (String × String) :=
+  [("srand", "srand(seed)"),
+   ("capacity", "pxs=np.empty(nx*ny,dtype=int);pys=np.empty(nx*ny,dtype=int)"),
+   ("init", "pxs[0]=randint(nx);pys[0]=randint(ny);num_actives=1"),
+   ("select", "i=randint(num_actives);px=pxs[i];py=pys[i];rx=_f32(radius_x[px,py]);ry=_f32(radius_y[px,py]);done=False;k=0"),
+   ("attempt", "v=_f32(random_uniform()+1);t=_f32(2*pi*random_uniform());qx=_f32(px+v*rx*cos(t));qy=_f32(py+v*ry*sin(t));k=k+1"),
+   ("window", "startx=fmax(int(qx-rx),0);endx=fmin(int(qx+rx+1),nx);starty=fmax(int(qy-ry),0);endy=fmin(int(qy+ry+1),ny);done=True"),
+   ("loops", "forxinrange(startx,endx);foryinrange(starty,endy)"),
+   ("distance", "distance=_f32(((qx-x)/radius_x[x,y])**2+((qy-y)/radius_y[x,y])**2)"),
+   ("conflict", "mask[x,y]==1anddistance<1=>done=False;break"),
+   ("accept", "pxs[num_actives]=int(qx);pys[num_actives]=int(qy);mask[pxs[num_actives],pys[num_actives]]=1;num_actives=num_actives+1"),
+   ("remove", "num_actives=num_actives-1;pxs[i]=pxs[num_actives];pys[i]=pys[num_actives]"),
+   ("random_uniform", "r=float(rand());returnr/RAND_MAX"),
+   ("randint", "returnint(random_uniform()*upper)")]
 
 end DirectVerif.C04Poisson
